@@ -57,7 +57,7 @@ import (
 
 const (
 	envChild       = "VERIF_C28_CHILD" // "<first round>:<number of rounds>:<result file>"
-	roundsPerChild = 10
+	roundsPerChild = 8
 )
 
 // ------------------------------------------------------------------------------------------------
@@ -114,6 +114,11 @@ func (h *harness) violation(rule, sig, desc string, witness any) {
 	v := &violRec{Rule: rule, Sig: sig, Desc: desc, Witness: witness, Count: 1}
 	h.violIdx[key] = v
 	h.res.Violations = append(h.res.Violations, v)
+	if b, err := json.Marshal(h.res); err == nil {
+		if os.WriteFile(h.outFile+".tmp", b, 0o644) == nil {
+			_ = os.Rename(h.outFile+".tmp", h.outFile)
+		}
+	}
 }
 
 func (h *harness) nViolations() int {
@@ -204,6 +209,7 @@ type provObj struct {
 	completed atomic.Uint64 // CU of relays completed on this provider object (done + increase-only)
 	inflight  atomic.Int64  // CU reserved by acquisitions that were not yet returned
 	acquired  atomic.Int64
+	heldN     atomic.Int64 // sessions of this provider object currently held by harness goroutines
 	veMax     atomic.Uint64 // highest virtual epoch any call that may have reserved CU here was started with
 }
 
@@ -259,6 +265,7 @@ type round struct {
 	h   *harness
 	p   roundParams
 	csm *lavasession.ConsumerSessionManager
+	opt *provideroptimizer.ProviderOptimizer
 
 	mu     sync.RWMutex
 	objs   map[*lavasession.ConsumerSessionsWithProvider]*provObj
@@ -404,13 +411,21 @@ func (rd *round) newPairing(rng *mrand.Rand, epoch uint64, register bool) (map[u
 	for i := 0; i < rd.p.Backups; i++ {
 		backup[uint64(rd.p.Providers+i)] = mk(rd.p.Providers+i, fmt.Sprintf("lava@r%dbackup%d", rd.p.Round, i), true)
 	}
+	for _, po := range objs {
+		// every object is in the ledger (a rejected update must leave its objects untouched: used CU stays 0)
+		rd.objs[po.cswp] = po
+		rd.all = append(rd.all, po)
+	}
 	if register {
 		rd.gen = gen
 		rd.epoch = epoch
 		for _, po := range objs {
-			rd.objs[po.cswp] = po
-			rd.all = append(rd.all, po)
 			rd.byAddr[po.Addr] = po
+		}
+	} else {
+		for _, po := range objs {
+			po.Gen = 0
+			po.Key += "(stale)"
 		}
 	}
 	for _, po := range objs {
@@ -463,20 +478,20 @@ func (rd *round) updateProviders(w int, rng *mrand.Rand, stale bool) {
 	rd.mu.RUnlock()
 	call := rd.clock.Add(1)
 	if stale {
+		// an update for an epoch older than the one the manager is in must be rejected without any effect
+		cur = rd.csm.VerifEpoch()
 		if cur < 40 {
 			return
 		}
 		pairing, backup, _ := rd.newPairing(rng, cur-20, false)
 		rd.begin()
 		rd.h.updates.Add(1)
-		done := make(chan error, 1)
 		go func() {
 			defer rd.h.updates.Done()
-			done <- rd.csm.UpdateAllProviders(cur-20, pairing, backup)
+			if err := rd.csm.UpdateAllProviders(cur-20, pairing, backup); err == nil {
+				rd.h.count("unexpected.stale-update-accepted", 1)
+			}
 		}()
-		// the stale update is rejected before the sleep? no: the deferred sleep runs on every return path. Do not wait
-		// for it; the epoch must simply still be the current one afterwards (checked through the snapshot).
-		_ = done
 		rd.end()
 		rd.c("op.update-stale-epoch", 1)
 		rd.logOp(opRec{Call: call, Ret: rd.clock.Add(1), W: w, Op: "UpdateAllProviders(stale)", Res: fmt.Sprint(cur - 20)})
@@ -613,6 +628,17 @@ func (rd *round) getSessions(w int, rl *relay) []*heldSession {
 			kind = "pairing-list-empty"
 		}
 		rd.c("GetSessions.error."+kind, 1)
+		if kind == "other" {
+			msg := err.Error()
+			if len(msg) > 300 {
+				msg = msg[:300]
+			}
+			rd.h.mu.Lock()
+			if len(rd.h.res.Samples) < 4 {
+				rd.h.res.Samples = append(rd.h.res.Samples, map[string]any{"unexpected_getsessions_error": msg, "round": rd.p.Round})
+			}
+			rd.h.mu.Unlock()
+		}
 		// CU-cap rejection (judged only when no other call overlapped): the call failed although a valid, not
 		// excluded, supporting provider existed whose only obstacle was the CU cap
 		if isolated && s1.Epoch == s2.Epoch {
@@ -680,6 +706,7 @@ func (rd *round) getSessions(w int, rl *relay) []*heldSession {
 		if p != nil {
 			p.inflight.Add(int64(rl.cu))
 			p.acquired.Add(1)
+			p.heldN.Add(1)
 			// (b) cap, against the highest virtual epoch any call that could have reserved here was started with
 			used, max := p.cswp.VerifUsedAndMaxCU()
 			vm := p.veMax.Load()
@@ -741,9 +768,27 @@ func (rd *round) getSessions(w int, rl *relay) []*heldSession {
 					break
 				}
 				if witnessQ != "" {
+					// diagnostics for the witness: what the selection layers know about every valid candidate
+					diag := map[string]any{}
+					for _, q := range s1.Valid {
+						po := rd.current(q)
+						if po == nil {
+							continue
+						}
+						qs := po.cswp.VerifSnapshot()
+						rep, _ := rd.opt.GetReputationReportForProvider(q)
+						blocklisted := 0
+						for _, ss := range qs.Sessions {
+							if ss.BlockListed {
+								blocklisted++
+							}
+						}
+						_, un := unwanted[q]
+						diag[q] = map[string]any{"used": qs.UsedCU, "max": qs.MaxCU, "endpoints": qs.Endpoints, "sessions": len(qs.Sessions), "blocklisted_sessions": blocklisted, "optimizer_has_report": rep != nil, "unwanted": un, "supports": po.supports(rl.addon, rl.extNames), "blocked_status": qs.BlockedStatus}
+					}
 					rd.h.violation("blocked-provider-not-last-resort", fmt.Sprintf("request=%s stateful=%d wanted=%d", rl.kind, rl.stateful, rl.wanted),
 						fmt.Sprintf("round %d: GetSessions returned %s, blocked in epoch %d, although unblocked provider %s supports the request, is not excluded by the relay and has CU left (used %d + %d <= %d)", rd.p.Round, a.addr, s1.Epoch, witnessQ, witnessUsed, rl.cu, witnessCap),
-						rd.witness(key, s.SessionId, map[string]any{"snapshot_before": s1, "snapshot_after": s2, "unwanted": keys(unwanted), "returned": keysCss(css), "virtual_epoch": ve, "cu": rl.cu, "addon": rl.addon, "extensions": rl.extNames}))
+						rd.witness(key, s.SessionId, map[string]any{"snapshot_before": s1, "snapshot_after": s2, "unwanted": keys(unwanted), "returned": keysCss(css), "virtual_epoch": ve, "cu": rl.cu, "addon": rl.addon, "extensions": rl.extNames, "candidates": diag}))
 				} else {
 					rd.c("blocked-selection.justified", 1)
 					rd.c("class.blocked-as-last-resort", 1)
@@ -832,6 +877,7 @@ func (rd *round) complete(w int, hs *heldSession, o int) {
 		if hs.p != nil {
 			hs.p.inflight.Add(-int64(hs.cu))
 			hs.p.completed.Add(hs.cu)
+			hs.p.heldN.Add(-1)
 		}
 		if err != nil {
 			rd.h.violation("completion-rejected-on-held-session", outcomeNames[o],
@@ -845,6 +891,7 @@ func (rd *round) complete(w int, hs *heldSession, o int) {
 		rd.end()
 		if hs.p != nil {
 			hs.p.inflight.Add(-int64(hs.cu))
+			hs.p.heldN.Add(-1)
 		}
 		rd.rollbacks.Add(1)
 		if err != nil {
@@ -887,14 +934,48 @@ func (rd *round) quiescentCheck(where string) {
 		completed, inflight := p.completed.Load(), p.inflight.Load()
 		want := int64(completed) + inflight
 		rd.c("quiescent.provider-checks", 1)
+		inUse := 0
+		for _, ss := range snap.Sessions {
+			if ss.InUse {
+				inUse++
+			}
+		}
 		if int64(snap.UsedCU) != want {
 			cmp := "used>ledger"
 			if int64(snap.UsedCU) < want {
 				cmp = "used<ledger"
 			}
-			rd.h.violation("used-cu-ledger-mismatch", cmp,
-				fmt.Sprintf("round %d %s: %s UsedComputeUnits=%d but completed=%d + in-flight=%d = %d", rd.p.Round, where, p.Key, snap.UsedCU, completed, inflight, want),
-				rd.witness(p.Key, 0, map[string]any{"where": where, "used": snap.UsedCU, "completed": completed, "inflight": inflight}))
+			// shape of the history: is a session of this provider locked although no relay holds it, and was the
+			// provider object already replaced by a later UpdateAllProviders?
+			shape := "every locked session is held by a relay"
+			orphans := int64(inUse) - p.heldN.Load()
+			if orphans > 0 {
+				shape = "a session is locked although GetSessions never returned it"
+			}
+			rd.mu.RLock()
+			replaced := p.Gen < rd.gen
+			rd.mu.RUnlock()
+			if replaced {
+				shape += "; provider object replaced by UpdateAllProviders"
+			} else {
+				shape += "; provider object of the current pairing"
+			}
+			diff := int64(snap.UsedCU) - want
+			if diff < 0 {
+				diff = -diff
+			}
+			// calls that could explain the difference: GetSessions calls with exactly that CU, and the epoch updates
+			var suspects []opRec
+			rd.logMu.Lock()
+			for _, o := range rd.log {
+				if strings.HasPrefix(o.Op, "UpdateAllProviders") || (strings.HasPrefix(o.Op, "GetSessions") && int64(o.Cu) == diff) {
+					suspects = append(suspects, o)
+				}
+			}
+			rd.logMu.Unlock()
+			rd.h.violation("used-cu-ledger-mismatch", cmp+" | "+shape,
+				fmt.Sprintf("round %d %s: %s UsedComputeUnits=%d but completed=%d + in-flight=%d = %d (sessions locked %d, held by relays %d)", rd.p.Round, where, p.Key, snap.UsedCU, completed, inflight, want, inUse, p.heldN.Load()),
+				rd.witness(p.Key, 0, map[string]any{"where": where, "used": snap.UsedCU, "completed": completed, "inflight": inflight, "sessions_locked": inUse, "sessions_held_by_relays": p.heldN.Load(), "epoch_updates_and_getsessions_with_cu_equal_to_difference": suspects}))
 		}
 		if vm := p.veMax.Load(); snap.UsedCU > snap.MaxCU*(vm+1) {
 			rd.h.violation("used-cu-above-cap", "at-quiescence",
@@ -905,13 +986,6 @@ func (rd *round) quiescentCheck(where string) {
 		}
 		if float64(snap.UsedCU) >= 0.8*float64(snap.MaxCU) {
 			rd.c("quiescent.provider-near-or-above-base-cap", 1)
-		}
-		// free sessions: CuSum against the session ledger (counter only; the signed value is checked at the next acquisition)
-		inUse := 0
-		for _, ss := range snap.Sessions {
-			if ss.InUse {
-				inUse++
-			}
 		}
 		if inUse > 0 {
 			rd.c("quiescent.sessions-in-flight", int64(inUse))
@@ -1149,7 +1223,7 @@ func (h *harness) runRound(r int) bool {
 	optimizer := provideroptimizer.NewProviderOptimizer(provideroptimizer.StrategyBalanced, 0, 1, nil, "dontcare")
 	optimizer.SetDeterministicSeed(h.seed*1000 + int64(r))
 	csm := lavasession.NewConsumerSessionManager(&lavasession.RPCEndpoint{NetworkAddress: "stub", ChainID: "LAV1", ApiInterface: "jsonrpc", HealthCheckPath: "/"}, optimizer, nil, "lava@c28consumer", lavasession.NewActiveSubscriptionProvidersStorage())
-	rd := &round{h: h, p: p, csm: csm, objs: map[*lavasession.ConsumerSessionsWithProvider]*provObj{}, byAddr: map[string]*provObj{}, cnt: map[string]int64{}}
+	rd := &round{h: h, p: p, csm: csm, opt: optimizer, objs: map[*lavasession.ConsumerSessionsWithProvider]*provObj{}, byAddr: map[string]*provObj{}, cnt: map[string]int64{}}
 	ok := rd.run(rng)
 
 	// merge counters, classify the round
@@ -1354,12 +1428,41 @@ func sideKey(s raceSide) string {
 	return kind + ":" + strings.Join(fs, "<")
 }
 
-// Justified baseline of racing pairs in which a monitored field is written under the code's own lock and the
-// unsynchronised other side only feeds logging, metrics or an ordering heuristic (it never writes the field
-// and its value never reaches the accounting the statement is about).
-var raceBaseline = []struct{ write, other, why string }{}
+// Justified baseline. A racing pair in which a monitored field is written is benign (not attributed) when the
+// other side is a pure reader of one of these kinds; the writes themselves are all made under the code's own lock.
+var (
+	reLogLine     = regexp.MustCompile(`LavaFormat|LogAttr\(|utils\.Attribute\{`)
+	raceBenignWhy = map[string]string{
+		"log":     "the unsynchronised side only evaluates a log attribute (len()/value of the field passed to utils.LavaFormat*); the value never reaches the accounting",
+		"atomic":  "the unsynchronised side is atomicReadUsedComputeUnits (word-sized sync/atomic load): ordering heuristics (sort by CU served) and the report-provider decision of OnSessionFailure; nothing is written back",
+		"metrics": "the unsynchronised side is the metrics goroutine of updateMetricsManager reading a session it no longer holds; the value only goes to SetQOSMetrics",
+	}
+)
 
-func classifyRace(rep raceReport) (key string, attributed bool, field string, desc string, baselined string) {
+func benignReader(other raceSide) string {
+	if other.Write {
+		return ""
+	}
+	if len(other.Frames) > 0 && strings.HasPrefix(other.Frames[0].Fn, "sync/atomic.Load") {
+		return "atomic"
+	}
+	f, ok := repoFrame(other)
+	if !ok {
+		return ""
+	}
+	if strings.Contains(f.Fn, "updateMetricsManager.func") {
+		return "metrics"
+	}
+	if reLogLine.MatchString(sourceLine(f.File, f.Line)) {
+		return "log"
+	}
+	return ""
+}
+
+// classifyRace: key = stack pair (line numbers stripped); attributed = one side writes a monitored field and the
+// other side is not a baselined benign reader; sig names the field and the writing function only, so that all
+// readers racing with the same unsynchronised writer are one finding.
+func classifyRace(rep raceReport) (key string, attributed bool, sig string, desc string, baselined string) {
 	k0, k1 := sideKey(rep.Sides[0]), sideKey(rep.Sides[1])
 	if k1 < k0 {
 		k0, k1 = k1, k0
@@ -1373,8 +1476,7 @@ func classifyRace(rep raceReport) (key string, attributed bool, field string, de
 		if !ok {
 			continue
 		}
-		src := sourceLine(f.File, f.Line)
-		m := reMonitored.FindString(src)
+		m := reMonitored.FindString(sourceLine(f.File, f.Line))
 		if m == "" {
 			continue
 		}
@@ -1384,23 +1486,22 @@ func classifyRace(rep raceReport) (key string, attributed bool, field string, de
 		if other.Write {
 			okind = "write"
 		}
-		field = m
-		desc = fmt.Sprintf("write of %s in %s vs unsynchronised %s in %s", m, shortFn(f.Fn), okind, shortFn(of.Fn))
-		for _, b := range raceBaseline {
-			if strings.Contains(f.Fn, b.write) && strings.Contains(of.Fn, b.other) && !other.Write {
-				return key, false, field, desc, b.why
-			}
+		sig = fmt.Sprintf("write of %s in %s", m, shortFn(f.Fn))
+		desc = fmt.Sprintf("%s vs unsynchronised %s in %s", sig, okind, shortFn(of.Fn))
+		if b := benignReader(other); b != "" {
+			baselined = b
+			continue // the other side may itself be a monitored write
 		}
-		return key, true, field, desc, ""
+		return key, true, sig, desc, ""
 	}
-	return key, false, "", "", ""
+	return key, false, sig, desc, baselined
 }
 
 var reFatal = regexp.MustCompile(`(?m)^(fatal error: .*|panic: .*|unexpected fault address.*|SIGSEGV.*)$`)
 
 func TestC28(t *testing.T) {
 	run := ev.Start("C28")
-	nRounds := run.Pick(150, 6000)
+	nRounds := run.Pick(96, 2400)
 	parallel := run.Pick(12, 12)
 	outDir := filepath.Join(ev.Dir(), ".out")
 	_ = os.MkdirAll(outDir, 0o755)
@@ -1448,7 +1549,7 @@ func TestC28(t *testing.T) {
 			logFile := filepath.Join(outDir, fmt.Sprintf("c28-child-%05d.log", j.first))
 			lf, _ := os.Create(logFile)
 			cmd := exec.Command(os.Args[0], "-test.run", "^TestC28Child$", "-test.count=1", "-test.timeout=0")
-			cmd.Env = append(os.Environ(), fmt.Sprintf("%s=%d:%d:%s", envChild, j.first, j.count, resFile), "GORACE=halt_on_error=0 log_path="+racePrefix)
+			cmd.Env = append(os.Environ(), fmt.Sprintf("%s=%d:%d:%s", envChild, j.first, j.count, resFile), "GORACE=halt_on_error=0 log_path="+racePrefix, fmt.Sprintf("GOMAXPROCS=%d", 2+(j.first/roundsPerChild)%3))
 			cmd.Stdout, cmd.Stderr = lf, lf
 			o := outcome{job: j, logFile: logFile}
 			if err := cmd.Start(); err != nil {
@@ -1547,7 +1648,7 @@ func TestC28(t *testing.T) {
 	type agg struct {
 		n          int
 		attributed bool
-		field      string
+		sig        string
 		desc       string
 		baselined  string
 		text       string
@@ -1561,10 +1662,10 @@ func TestC28(t *testing.T) {
 		}
 		for _, rep := range parseRaceLog(string(b)) {
 			total++
-			key, attributed, field, desc, baselined := classifyRace(rep)
+			key, attributed, sig, desc, baselined := classifyRace(rep)
 			a, ok := distinct[key]
 			if !ok {
-				a = &agg{attributed: attributed, field: field, desc: desc, baselined: baselined, text: rep.Text}
+				a = &agg{attributed: attributed, sig: sig, desc: desc, baselined: baselined, text: rep.Text}
 				distinct[key] = a
 			}
 			a.n++
@@ -1578,33 +1679,54 @@ func TestC28(t *testing.T) {
 		keysSorted = append(keysSorted, k)
 	}
 	sort.Strings(keysSorted)
-	attributedSigs := map[string]bool{}
+	type finding struct {
+		others  map[string]int
+		example string
+		n       int
+	}
+	findings := map[string]*finding{}
+	var findingOrder []string
 	for _, k := range keysSorted {
 		a := distinct[k]
 		switch {
 		case a.attributed:
 			run.Count("race.distinct-attributed", 1)
 			classes["ATTRIBUTED "+a.desc] += a.n
-			if !attributedSigs[a.desc] {
-				attributedSigs[a.desc] = true
-				txt := a.text
-				if len(txt) > 6000 {
-					txt = txt[:6000]
-				}
-				run.Violation("race-on-accounting-field", a.desc, "race detector: "+a.desc, map[string]any{"seed": run.Seed, "report": txt, "occurrences": a.n})
+			fd, ok := findings[a.sig]
+			if !ok {
+				fd = &finding{others: map[string]int{}, example: a.text}
+				findings[a.sig] = fd
+				findingOrder = append(findingOrder, a.sig)
 			}
+			fd.others[a.desc] += a.n
+			fd.n += a.n
 		case a.baselined != "":
 			run.Count("race.distinct-baselined-benign", 1)
-			classes["baselined "+a.desc+" ("+a.baselined+")"] += a.n
+			classes["baselined["+a.baselined+"] "+a.desc] += a.n
 		default:
 			run.Count("race.distinct-not-on-monitored-field", 1)
 			short := k
-			if len(short) > 160 {
-				short = short[:160]
+			if len(short) > 200 {
+				short = short[:200]
 			}
 			classes["other "+short] += a.n
 		}
 	}
+	for _, sig := range findingOrder {
+		fd := findings[sig]
+		txt := fd.example
+		if len(txt) > 6000 {
+			txt = txt[:6000]
+		}
+		var pairs []string
+		for d := range fd.others {
+			pairs = append(pairs, d)
+		}
+		sort.Strings(pairs)
+		run.Violation("race-on-accounting-field", sig, fmt.Sprintf("race detector (%d reports): %s", fd.n, strings.Join(pairs, "; ")),
+			map[string]any{"seed": run.Seed, "racing_pairs": fd.others, "example_report": txt})
+	}
+	run.Set("race_baseline_rules", raceBenignWhy)
 	run.Set("race_report_classes", classes)
 
 	for _, cls := range []string{"class.done", "class.increase-only", "class.fail-plain", "class.fail-block-provider", "class.fail-report-and-block", "class.fail-session-out-of-sync", "class.fail-block-endpoint", "class.epoch-update-with-sessions-in-flight", "completed-on-previous-epoch-object", "class.cu-cap-rejection", "class.blocked-as-last-resort", "class.virtual-epoch-capacity-used", "acquisitions.of-reused-session", "quiescent.sessions-in-flight"} {
